@@ -95,6 +95,17 @@ def featuresSuccs (K : Consts) (ts : TypeSystem) (o : Opts) (hp : Heap) (allFs :
     let (p2, n2) ← featuresSuccs K ts o hp allFs fuel a fs
     pure (p1 ++ p2, n1 + n2)
 
+/-- what the popped FS at `a` (of registered type `t`) contributes: addresses to push, list-walk steps -/
+def nodeSuccs (K : Consts) (ts : TypeSystem) (o : Opts) (hp : Heap) (allFs : List (Int × Nat)) (fuel : Nat)
+    (a : Nat) (t : TypeRec) : Except Err (List Nat × Nat) :=
+  if t.super == some ARRAY_BASE then
+    if t.name == FS_ARRAY then
+      match slot hp a "elements" with
+      | some (.refs l) => .ok (refsToPush hp allFs l, 0)
+      | _ => .ok ([], 0)
+    else .ok ([], 0)
+  else featuresSuccs K ts o hp allFs fuel a (allFeatures t)
+
 /-- one iteration of `while openlist` on the popped address `a` -/
 def step (K : Consts) (ts : TypeSystem) (o : Opts) (fuel : Nat) (s : St) (a : Nat) (rest : List Nat) :
     Except Err St := do
@@ -118,17 +129,8 @@ def step (K : Consts) (ts : TypeSystem) (o : Opts) (fuel : Nat) (s : St) (a : Na
   | none =>
     let s := { s with allFs := s.allFs ++ [(x, a)] }
     let t ← getType ts ob.ty
-    if t.super == some ARRAY_BASE then
-      if t.name == FS_ARRAY then
-        match slot s.heap a "elements" with
-        | some (.refs l) =>
-          let ps := refsToPush s.heap s.allFs l
-          return { s with openl := s.openl ++ ps, pushes := s.pushes + ps.length }
-        | _ => return s
-      else return s
-    else
-      let (ps, n) ← featuresSuccs K ts o s.heap s.allFs fuel a (allFeatures t)
-      return { s with openl := s.openl ++ ps, pushes := s.pushes + ps.length, listSteps := s.listSteps + n }
+    let (ps, n) ← nodeSuccs K ts o s.heap s.allFs fuel a t
+    return { s with openl := s.openl ++ ps, pushes := s.pushes + ps.length, listSteps := s.listSteps + n }
 
 /-- the worklist loop; `fuel` bounds the number of iterations -/
 def run (K : Consts) (ts : TypeSystem) (o : Opts) (listFuel : Nat) : Nat → St → Except Err St
@@ -143,20 +145,28 @@ def run (K : Consts) (ts : TypeSystem) (o : Opts) (listFuel : Nat) : Nat → St 
 /-- seeds when none are given: `select_all()` of every view, in `cas.sofas` order -/
 def defaultSeeds (c : Cas) : List Nat := c.views.flatMap (fun p => (Index.all p.2.idx).map (·.oid))
 
-/-- number of reference edges of the heap (upper bound of pushes): every slot value contributes its
-    references -/
-def valRefs : Val → Nat
-  | .ref _ => 1
-  | .refs l => l.length
-  | _ => 0
+/-- everything the FS at `a` can ever contribute to the open list: its successors computed against an
+    empty visited map (references it holds directly or through its inlined arrays and lists) -/
+def outdeg (K : Consts) (ts : TypeSystem) (o : Opts) (hp : Heap) (listFuel : Nat) (a : Nat) : Nat :=
+  match hp[a]? with
+  | none => 0
+  | some ob =>
+    match getType ts ob.ty with
+    | .error _ => 0
+    | .ok t =>
+      match nodeSuccs K ts o hp [] listFuel a t with
+      | .ok (ps, _) => ps.length
+      | .error _ => 0
 
-def heapEdges (hp : Heap) : Nat := (hp.map (fun o => (o.slots.map (fun p => valRefs p.2)).sum)).sum
+def totalOut (K : Consts) (ts : TypeSystem) (o : Opts) (hp : Heap) (listFuel : Nat) : Nat :=
+  ((List.range hp.length).map (outdeg K ts o hp listFuel)).sum
 
-/-- `_find_all_fs`: fuel chosen generously; the theorems of C15 show what suffices -/
+/-- `_find_all_fs`: the fuel is the proved iteration bound `|seeds| + Σ outdeg` (C15) -/
 def findAllFs (K : Consts) (ts : TypeSystem) (o : Opts) (hp : Heap) (nextXid : Int) (seeds : List Nat) :
     Except Err St :=
-  let fuel := seeds.length + 2 * heapEdges hp + hp.length + 1
-  run K ts o (hp.length + 1) fuel { heap := hp, nextXid := nextXid, openl := seeds }
+  let lf := hp.length + 1
+  let fuel := seeds.length + totalOut K ts o hp lf
+  run K ts o lf fuel { heap := hp, nextXid := nextXid, openl := seeds }
 
 /-! ### typecheck -/
 
